@@ -63,7 +63,18 @@ def add_collects(rng, line):
     t = line.split()
     extra = []
     nx = 0
-    for _ in range(rng.randrange(1, 4)):
+    rotate_at = rng.randrange(0, 3) if rng.random() < 0.3 else -1
+    for j in range(rng.randrange(1, 4) + (2 if rotate_at >= 0 else 0)):
+        if j == rotate_at:
+            # the fee admin rotates the global fee wallet (real edit_global_fee_state; the group's cache is NOT refreshed):
+            # from here on fees must go to the new wallet's token account and the previous wallet's must be refused
+            extra += [39]
+            nx += 1
+            continue
+        if rotate_at >= 0 and j > rotate_at and rng.random() < 0.5:
+            extra += [40, rng.randrange(c["nb"])]
+            nx += 1
+            continue
         if rng.random() < 0.3:
             # a fee ATA that belongs to somebody else: must be refused whatever the fee parameters are
             extra += [32, rng.randrange(c["nb"]), rng.randrange(c["na"])]
